@@ -375,6 +375,7 @@ ReadClauses(cur, e) ==
   IN
   << <<p \o ".read.total", frag => e.out = "value">>,
      \* what comes back is a model at all (the preserve clauses below presuppose it)
+     <<p \o ".read.shape", frag /\ e.out = "value" => e.anom = <<>> >>,
      <<p \o ".read.wellformed", frag /\ ok => WellFormedTree(b)>>,
      <<"C02.ctcfeatures.doc", frag /\ ok /\ Len(e.ret.ctcfeatures) = Len(cur.m0.ctcs) =>
            \A i \in DOMAIN cur.m0.ctcs : IsPropT(cur.m0.ctcs[i].ast) => SetOf(e.ret.ctcfeatures[i]) = VarsOf(cur.m0.ctcs[i].ast)>> >>
@@ -398,6 +399,8 @@ ReadRefClauses(cur, e) ==
   THEN << <<p \o ".rejects." \o e.args.broken, e.out # "value">> >>
   ELSE
   << <<p \o ".accepts", e.out = "value">>,
+     \* the object graph is a model at all (no shared or wrongly typed parts: the projection found nothing anomalous)
+     <<p \o ".shape", e.out = "value" => e.anom = <<>> >>,
      <<p \o ".wellformed", ok => WellFormedTree(b)>>,
      \* the features a constraint reports are the names WRITTEN in the document's constraint
      <<"C02.ctcfeatures.doc", ok /\ Len(e.ret.ctcfeatures) = Len(ref.ctcs) =>
